@@ -3448,17 +3448,26 @@ class x86_mn(x86_mn_base):
             symbol_off.append([])
 
             val_add = [opc_o[1]]+opc_o[2]
+            fits = True
             for c in val_add:
                 if c == {}:
                     continue
                 symbol_off[-1].append(len(out_byte))
                 if mnemo_mode == 'u16' and c[x86_afs.size] in [u32, s32] and not c.get(x86_afs.ad,False):
+                    v = int(c[x86_afs.imm])&0xffffffff
+                    if 0x10000 <= v < 0xffff8000:
+                        # does not fit a 16-bit immediate: this form is excluded
+                        fits = False
+                        break
                     out_byte+=struct.pack(x86_afs.dict_size[mnemo_mode], int(c[x86_afs.imm]&0xffff))
                 elif c[x86_afs.size] in [u08, s08, u16, s16, u32, s32]:
                     out_byte+=struct.pack(x86_afs.dict_size[c[x86_afs.size]], int(c[x86_afs.imm]))
                 else:
                     raise ValueError('bad size in asm! %s' % c)
 
+            if not fits:
+                symbol_off.pop()
+                continue
             hex_candidate.append(out_byte)
             log.info( hexdump(out_byte))
         return list(zip(hex_candidate, symbol_off))
